@@ -2622,7 +2622,8 @@ theorem selectWide_print_parse_partial (fuel : Nat) (s : PState) (f : Field) (fs
   rw [wp_bind]
   refine wp_mono (selectBody_printW fuel (some (parseSelect (fuel + 3) false))
     (fun p hp => by cases hp; exact parseSelect_frame _ _) s f fs tgt ((q :: qs).map qualSrc)
-    ((qualM q).print ++ moreQuals qs) c ds fill fv sf l o sl so loc k hbody ?_ hk hs) ?_ (fun _ h => h)
+    ((qualM q).print ++ moreQuals qs) c ds fill fv sf l o sl so loc k false (fun h => by cases h) hbody ?_ hk hs) ?_
+    (fun _ h => h)
   · intro s3 k' _ hk' hb
     obtain ⟨s4, h4, st4⟩ := parseSourcesWith_quals (some (parseSelect (fuel + 3) false)) s3 q qs k' hn hk'
       (by simpa [List.append_assoc] using hb)
@@ -2701,7 +2702,7 @@ theorem selectSub_print_parse_partial (n fuel : Nat) (s : PState) (st : SelectSt
       (fun r s' => r = .select st ∧ RT.Stand s' k) (· = .fuel) := by
   simp only [runHandler]
   rw [wp_bind]
-  refine wp_mono (parseSelect_sub s.lowerTbl n fuel st s k hok rfl hk hs) ?_ (fun _ h => h)
+  refine wp_mono (parseSelect_sub s.lowerTbl n fuel false st s k hok (fun h => by cases h) rfl hk hs) ?_ (fun _ h => h)
   intro r s' ⟨hr, hs'⟩
   rw [wp_pure, hr]
   exact ⟨rfl, hs'⟩
